@@ -138,7 +138,9 @@ func verifC09Coupling() {
 	ghost := c09Edits(&ls.AnySource, ls, n, vParam("nedits", 2))
 	c09CheckTable(ls.broker, ghost, n)
 	c09Distribute(ls.broker, ghost, n, 1, "a")
-	c09Distribute(ls.broker, ghost, n, 1, "b")
+	if vParam("cycles", 1) >= 2 {
+		c09Distribute(ls.broker, ghost, n, 1, "b")
+	}
 	vObserve("nconn", int64(ls.broker.nconnections))
 	vWitness("c09coupling-end")
 }
